@@ -253,6 +253,11 @@ def sources_hash(extra_files=()):
 def build_model_driver(name, extract_v, driver_ml, stubs_c=None, packages=("unix",), cclibs=()):
     """Extract `extract_v` (a file under coq/Extract) and link it with driver_ml. Cached on source hash.
     Returns path of the executable."""
+    with Lock("extract-" + name):
+        return _build_model_driver(name, extract_v, driver_ml, stubs_c, packages, cclibs)
+
+
+def _build_model_driver(name, extract_v, driver_ml, stubs_c=None, packages=("unix",), cclibs=()):
     extra = [os.path.join(COQ, "Extract", extract_v), driver_ml] + ([stubs_c] if stubs_c else [])
     key = sources_hash(extra)[:20]
     out = os.path.join(CACHE, "extract", name)
